@@ -99,7 +99,10 @@ def view_eq(eng, p, a, b):
     }
 
 
+_IMK = T.Pair(TK, T.INT)
 VIEWS = {
+    "IM": lambda eng, p, h, k, n: T.scalar(T.META, h.fields["_incidences_metadata"].val[_IMK.mk(k.t, eng.coerce(n, T.INT).t)]),
+    "HASIM": lambda eng, p, h, k, n: T.sv_bool(h.fields["_incidences_metadata"].dom[_IMK.mk(k.t, eng.coerce(n, T.INT).t)]),
     "V": lambda eng, p, h: T.scalar(T.Set(T.INT), h.fields["_adj"].dom),
     "E": lambda eng, p, h: T.scalar(T.Set(TK), h.fields["_edge_list"].dom),
     "W": lambda eng, p, h, k: T.sv_real(W_(h, k.t)),
@@ -420,14 +423,19 @@ CONTRACTS = [
       ensures={"wf": "wf(self)", "V": "all(n not in V(self) for n in Node)", "E": "all(k not in E(self) for k in Key)",
                "weighted": "weighted(self) == weighted(old(self))"}),
     C("num_nodes", params={}, result="Int", pure=True, requires={"wf": "wf(self)"}, ensures={"result": "result == card(V(self))"}),
-    C("get_sizes", params={}, result="Bag[Int]", pure=True,
+    C("get_sizes", params={}, result="Bag[Int]", pure=True, options={"image_counts"},
       ensures={"len": "len(result) == card(E(self))",
+               "exact": "all(count(result, s) == card({k for k in E(self) if len(snd(k)) == s}) for s in Int if trig(card({k for k in E(self) if len(snd(k)) == s})))",
                "members": "all(implies(count(result, s) >= 1, any(len(snd(k)) == s for k in E(self))) for s in Int)",
                "covers": "all(count(result, len(snd(k))) >= 1 for k in E(self))"}),
-    C("get_orders", params={}, result="Bag[Int]", pure=True,
+    C("get_orders", params={}, result="Bag[Int]", pure=True, options={"image_counts"},
       ensures={"len": "len(result) == card(E(self))",
+               "exact": "all(count(result, s) == card({k for k in E(self) if len(snd(k)) - 1 == s}) for s in Int if trig(card({k for k in E(self) if len(snd(k)) - 1 == s})))",
                "members": "all(implies(count(result, s) >= 1, any(len(snd(k)) - 1 == s for k in E(self))) for s in Int)",
                "covers": "all(count(result, len(snd(k)) - 1) >= 1 for k in E(self))"}),
+    C("distribution_sizes", params={}, result="Map[Int,Int]", pure=True, requires={"wf": "wf(self)"},
+      ensures={"dom": "all((s in result) == any(len(snd(k)) == s for k in E(self)) for s in Int)",
+               "val": "all(result[s] == card({k for k in E(self) if len(snd(k)) == s}) for s in result)"}),
     C("max_size", params={}, result="Int", pure=True,
       raises={"ValueError": "card(E(self)) == 0"},
       ensures={"bound": "all(len(snd(k)) <= result for k in E(self))", "attained": "any(len(snd(k)) == result for k in E(self))"}),
@@ -667,4 +675,24 @@ CONTRACTS += [
       ensures={"HM": "HM(self) == metadata"}, properties=['C03', 'C07']),
     C("set_attr_to_hypergraph_metadata", params={"field": "Field", "value": "Val"}, modifies=["_hypergraph_metadata"],
       ensures={"HM": "HM(self) == mset(HM(old(self)), field, value)"}, properties=['C03', 'C07']),
+]
+
+
+# ---- incidence metadata and the metadata tables as a whole (session 4): the entry is filed under (time, canonical hyperedge) and the node
+CONTRACTS += [
+    C("set_incidence_metadata", params={"edge": "NodeSeq", "time": "Int", "node": "Node", "metadata": "Meta"}, modifies=["_incidences_metadata"],
+      raises={"ValueError": f"{KEY} not in E(self)"},
+      ensures={"set": f"HASIM(self, {KEY}, node) and IM(self, {KEY}, node) == metadata",
+               "others": f"all(implies(k != {KEY} or n != node, HASIM(self, k, n) == HASIM(old(self), k, n) and IM(self, k, n) == IM(old(self), k, n)) for k in Key for n in Node)"}),
+    C("get_incidence_metadata", params={"edge": "NodeSeq", "time": "Int", "node": "Node"}, result="Meta", pure=True,
+      raises={"ValueError": f"{KEY} not in E(self)", "KeyError": f"{KEY} in E(self) and not HASIM(self, {KEY}, node)"},
+      ensures={"result": f"result == IM(self, {KEY}, node)"}),
+    C("get_all_incidences_metadata", params={}, result="Map[Pair[Pair[Int,Tup],Int],Meta]", pure=True,
+      ensures={"dom": "all((pair(k, n) in result) == HASIM(self, k, n) for k in Key for n in Node)",
+               "val": "all(implies(HASIM(self, k, n), result[pair(k, n)] == IM(self, k, n)) for k in Key for n in Node)"}),
+    C("__len__", params={}, result="Int", pure=True, ensures={"result": "result == card(E(self))"}),
+    C("get_all_nodes_metadata", params={}, result="Map[Int,Meta]", pure=True, requires={"wf": "wf(self)"},
+      ensures={"val": "all(implies(n in result, result[n] == NM(self, n)) for n in Node)", "same": "all((n in result) == (n in V(self)) for n in Node)"}),
+    C("get_all_edges_metadata", params={}, result="Map[Int,Meta]", pure=True, requires={"wf": "wf(self)"},
+      ensures={"by_id": "all(ID(self, k) in result and result[ID(self, k)] == M(self, k) for k in E(self))"}),
 ]
